@@ -114,8 +114,8 @@ Proof. reflexivity. Qed.
 (* ==================================================================================================
    Extensions.
 
-   (a) What reaches the screen, view by view: Tui/Views.v (NEW model file, not yet part of the extracted
-       model the harness runs against the code) renders a whole frame - header, tabs | flows, bsod |
+   (a) What reaches the screen, view by view: Tui/Views.v (its table and map parts are by now extracted and
+       compared with the real frames, see part (c) at the end) renders a whole frame - header, tabs | flows, bsod |
        splash | chart | map | hop table (with the detail lines of the selected row), history and
        frequency titles, info bar, settings | help - as a list of fragments tagged with what they were
        computed from (literal; address / host names / AS / GeoIP of the hop with ttl t; map location
@@ -265,7 +265,7 @@ Proof. exact first_ttl_tail_never_hidden. Qed.
 (* a frame of the hop table (columns #, Host, Loss%): hop 2 hidden, hop 5 printed *)
 Example c18_ex_table_frame :
   table_view (ex_table_state (Some 3)) =
-    Ok [FLit 1; FLit 0; FLit 2;  FLit 1; FLit L_HIDDEN; FLit 2;  FLit 1; FAddr 5 51; FLit L_LABEL; FLit L_LABEL; FLit 4; FLit 2].
+    Ok [FLit 1; FLit 0; FLit 2;  FLit 1; FLit L_HIDDEN; FLit 2;  FLit 1; FAddr 5 51; FLit 2].
 Proof. exact ex_table_frame. Qed.
 
 (* the whole frame of the map view renders, hides the source, prints the target *)
@@ -286,3 +286,173 @@ Example c18_ex_history :
   | _ => False
   end.
 Proof. vm_compute. reflexivity. Qed.
+
+(* ==================================================================================================
+   (c) The TEXT of the frames.  Tui/Views.v is now part of the extracted model: the Host cell of every
+       table row (render_hostname, format_address, format_dns_entry, render_hostname_with_details,
+       format_details / fmt_details_line) with its row height, and the info panel of the map
+       (build_map_entries, render_map_info_panel), are computed by TuiFrames.frame_body (Tui/Frames.v)
+       from the state of the application model Tui/App.v and compared TEXT FOR TEXT with reference
+       screens of the real TuiApp after every frame of every c18 scenario (harness/htui/src/m_c18.rs
+       `text_reference`, ocaml/d_tui.ml `frame_text`).  A fragment stands for a definite piece of text
+       (the renderer of the correspondence, `txt` in d_tui.ml, is a function of the fragment alone).
+       Lemmas: Proofs/TuiViewsText.v.
+   ================================================================================================== *)
+From TV Require Import Tui.Frames Proofs.TuiViewsText.
+
+(* Whatever the strings of the hidden hops are.  `txt1` and `txt2` are two renderers of fragments into
+   characters - two worlds in which IP addresses, host names, AS and GeoIP data (and, with privacy on, the
+   source) are different strings for the hops with ttl <= n, and the same strings for everything else.
+   The text of the WHOLE frame (every view) is the same in both worlds: the frame tells nothing about
+   those strings. *)
+Theorem c18_frame_text_independent_of_hidden_strings : forall (S : Type) st fr mk (txt1 txt2 : frag -> list S),
+  render st = Ok (fr, mk) -> (forall f, frag_ok (c_privacy (s_cfg st)) f -> txt1 f = txt2 f) ->
+  text_of txt1 fr = text_of txt2 fr.
+Proof. exact render_text_independent. Qed.
+
+(* The same, cell by cell, for what the correspondence reads off the real frames: the text of the Host
+   cell of every row of the hop table, the title and text of the map's info panel (and the chart). *)
+Theorem c18_cell_text_independent_of_hidden_strings : forall (S : Type) st b (txt1 txt2 : frag -> list S),
+  body_struct st = Ok b -> (forall f, frag_ok (c_privacy (s_cfg st)) f -> txt1 f = txt2 f) ->
+  match b with
+  | BTable rows => map (fun r => text_of txt1 (fst r)) rows = map (fun r => text_of txt2 (fst r)) rows
+  | BMap info _ => text_of txt1 info = text_of txt2 info
+  | BChart t => text_of txt1 t = text_of txt2 t
+  | _ => True
+  end.
+Proof. exact body_text_independent. Qed.
+
+(* The structured body that is extracted and compared with the real frames (which view; the rows one by
+   one with their heights; the panel) is the body that `render` - the function the theorems of part (a)
+   are about - puts into the frame: body.rs transcribed once, seen twice. *)
+Theorem c18_compared_body_is_the_body_of_render : forall st,
+  body_view st = let* b := body_struct st in Ok (body_flat (s_cols st) b).
+Proof. exact body_view_struct. Qed.
+
+(* A reference screen computed from ANY state of the application model (whatever the keys, methods, data
+   changes and frames before did to address mode, AS info, max_addrs, hop details, selection, flows),
+   with any override of the display settings, any resolver / GeoIP answers and any hop data: every row
+   of the table, the map panel, the chart are admissible for the privacy level the APPLICATION has -
+   no override of a display setting gets around it. *)
+Theorem c18_reference_screen_admissible : forall a nt o d hops target b,
+  TuiFrames.frame_body a nt o d hops target = Ok b -> body_ok (TuiApp.privacy (TuiApp.a_view a)) b.
+Proof. exact frame_body_ok. Qed.
+
+(* ... and the hop data such a screen is computed from is the data of that state: the hops of the flow on
+   display, row for row with the ttl and the number of addresses the application model keeps (otherwise
+   frame_body refuses), under the application's privacy level. *)
+Theorem c18_reference_screen_data_fits_the_state : forall a nt o d hops target st,
+  TuiFrames.vstate_of_app a nt o d hops target = Ok st ->
+  c_privacy (s_cfg st) = TuiApp.privacy (TuiApp.a_view a) /\ s_hops st = hops /\
+  exists sh, TuiApp.hops_for_flow (TuiApp.data a) (TuiApp.sel_flow (TuiApp.a_sel a)) = Ok sh /\
+    Forall2 (fun s h => TuiApp.hs_ttl s = h_ttl h /\ TuiApp.hs_addrs s = zlen (h_info h)) sh hops.
+Proof.
+  intros a nt o d hops target st H. destruct (vstate_of_app_inv _ _ _ _ _ _ _ H) as (Hp & Hh & _ & sh & Hs & Ha).
+  split; [exact Hp|]. split; [exact Hh|]. exists sh. split; [exact Hs|apply hops_agree_spec; exact Ha].
+Qed.
+
+(* A hidden row is the placeholder and NOTHING else: one fragment, one line, row height 1 - with or
+   without hop details, in every address / AS / GeoIP mode, for every max_addrs, whatever the resolver
+   and the GeoIP lookup answer; a hop that never answered prints "No response" the same way. *)
+Theorem c18_hidden_row_is_the_placeholder : forall c h o,
+  (0 < h_total_recv h -> hidden (c_privacy c) (h_ttl h) = true ->
+     host_cell c h = [FLit L_HIDDEN] /\ host_cell_details c h o = [FLit L_HIDDEN] /\ host_rows c h = Ok 1) /\
+  (h_total_recv h <= 0 ->
+     host_cell c h = [FLit L_NO_RESPONSE] /\ host_cell_details c h o = [FLit L_NO_RESPONSE] /\ host_rows c h = Ok 1).
+Proof. intros c h o. split; [apply hidden_row_text|apply silent_row_text]. Qed.
+
+(* The info panel of the map for a hidden hop: the title "Hop n" and the placeholder - nothing of the map
+   entries, the hop's addresses, the GeoIP configuration. *)
+Theorem c18_hidden_panel_is_the_placeholder : forall c es sel, hidden (c_privacy c) (h_ttl sel) = true ->
+  map_info c es sel = [FLit L_HOP; FLit L_SP; FNum (h_ttl sel); FLit L_NL; FLit L_HIDDEN].
+Proof. exact hidden_panel_text. Qed.
+
+(* The "Target: source -> destination" line of the header, computed from any state of the application
+   model (it is drawn on every screen, also the error and the splash screen): with privacy on - at any
+   level, 0 included - the source is the placeholder; with privacy off the source is printed.  The
+   destination is printed in both (F18). *)
+Theorem c18_target_line : forall a,
+  (TuiApp.privacy (TuiApp.a_view a) <> None ->
+     TuiFrames.frame_target_line a = [FLit L_TARGET; FLit L_COLON; FLit L_HIDDEN; FLit L_ARROW; FDest (TuiApp.trace_selected (TuiApp.a_sel a))]) /\
+  (TuiApp.privacy (TuiApp.a_view a) = None ->
+     TuiFrames.frame_target_line a = [FLit L_TARGET; FLit L_COLON; FSrc; FLit L_ARROW; FDest (TuiApp.trace_selected (TuiApp.a_sel a))]).
+Proof. exact target_line_text. Qed.
+
+(* The Host cell has exactly as many text lines as render_hostname makes the row high (a hidden row: 1 and
+   1): no line is clipped and no line of a neighbouring row can show through.  For a visible responding
+   hop this needs what trippy-core guarantees (at least one address, at most 255 - the u8 clamp) and that
+   the sort is a permutation. *)
+Theorem c18_cell_lines_eq_row_height : forall c h n,
+  (0 < h_total_recv h -> hidden (c_privacy c) (h_ttl h) = false -> 1 <= zlen (h_info h) <= 255) ->
+  (forall l, length (c_order c l) = length l) ->
+  host_rows c h = Ok n -> nlines (host_cell c h) = n.
+Proof. exact host_cell_lines_eq_height. Qed.
+
+(* The detail cell (row height 7) has its 7 lines, or a single one (placeholder, "No response", a failed or
+   timed-out lookup, a stale address index): never more than the row is high. *)
+Theorem c18_detail_cell_lines : forall c h o,
+  nlines (host_cell_details c h o) = 7 \/ nlines (host_cell_details c h o) = 1.
+Proof. exact host_cell_details_lines. Qed.
+
+(* Raising the level never makes more text admissible: what may be on screen at a stricter level may be
+   on screen at every laxer one. *)
+Theorem c18_admissible_monotone : forall p q l, level p <= level q -> (forall n, p = Some n -> 0 <= n) ->
+  frags_ok q l -> frags_ok p l.
+Proof. exact frags_ok_mono. Qed.
+
+(* "Hops above n are shown normally": every address render_hostname selects for a visible responding hop
+   is on screen, by its IP address or by its host name, in every address mode. *)
+Theorem c18_visible_row_names_its_addresses : forall c h af,
+  0 < h_total_recv h -> hidden (c_privacy c) (h_ttl h) = false -> In af (shown_addrs c h) ->
+  In (FAddr (h_ttl h) (fst af)) (host_cell c h) \/ In (FHost (h_ttl h) (fst af)) (host_cell c h).
+Proof. exact visible_row_names_every_shown_address. Qed.
+
+(* The hop table as a whole (every row's text and height, faults included) is a function of the VISIBLE
+   hops' data: replace the addresses and counts of every hidden hop by anything else (also more or
+   fewer addresses) - the rows are the same, whichever row is selected, with or without hop details. *)
+Theorem c18_table_is_a_function_of_the_visible_hops : forall st hs1 hs2,
+  Forall2 (same_visible (c_privacy (s_cfg st))) hs1 hs2 ->
+  table_rows (with_hops st hs1) = table_rows (with_hops st hs2).
+Proof. exact table_rows_same_visible. Qed.
+
+(* The keys move the placeholder by one row: after expand_privacy (below the hop count) the responding
+   row with ttl = old level + 1 - and every nearer one - is the one-line placeholder; after
+   contract_privacy the row with ttl = old level is drawn by the normal branch again. *)
+Theorem c18_keys_move_the_placeholder :
+  (forall hc p q c h o, expand_privacy_step hc p = Ok q -> level p < hc -> (forall n, p = Some n -> 0 <= n) ->
+     c_privacy c = q -> h_ttl h <= level p + 1 -> 0 < h_total_recv h ->
+     host_cell c h = [FLit L_HIDDEN] /\ host_cell_details c h o = [FLit L_HIDDEN] /\ host_rows c h = Ok 1) /\
+  (forall p c h, 0 <= level p -> c_privacy c = contract_privacy_step p -> level p <= h_ttl h -> 0 < h_total_recv h ->
+     host_cell c h = host_lines c h).
+Proof. split; [exact expand_hides_next_row|exact contract_reveals_last_row]. Qed.
+
+(* ---- non-vacuity of part (c) ---- *)
+
+(* rows as the correspondence sees them: hop 2 hidden; hop 4 with two addresses (host name in front of the
+   address, GeoIP short name, frequencies), two lines, height 2 *)
+Example c18_ex_text_rows :
+  table_rows (mk_vstate (ex_text_cfg (Some 3)) [COL_HOST] [mk_hop_view 2 4 [(21, 4)]; mk_hop_view 4 4 [(41, 3); (42, 1)]] None 0
+                (mk_hop_view 4 4 [(41, 3); (42, 1)]) false false false false false false false false 1 0 []) =
+  Ok [([FLit L_HIDDEN], 1);
+      ([FAs 4 41 AS_TABLE; FLit L_SP; FHost 4 41; FLit L_LPAR; FAddr 4 41; FLit L_RPAR; FLit L_LBR; FGeo 4 41 1; FLit L_RBR; FLit L_LBR; FPct 3 4; FLit L_RBR;
+        FLit L_NL;
+        FAddr 4 42; FLit L_LPAR; FAddr 4 42; FLit L_RPAR; FLit L_LBR; FPct 1 4; FLit L_RBR], 2)].
+Proof. exact ex_text_rows. Qed.
+
+(* two renderers that print different strings for the hidden hops and agree on everything admissible *)
+Example c18_ex_renderers_agree : forall f, frag_ok (Some 3) f -> ex_txt 111 f = ex_txt 222 f.
+Proof. exact ex_txt_agree. Qed.
+
+(* a reference screen computed from a state of the application model (privacy 3, row 1 selected, details on) *)
+Example c18_ex_reference_screen :
+  match TuiFrames.frame_body ex_app 1 ex_oracle ex_draw [mk_hop_view 2 4 [(21, 4)]; mk_hop_view 4 4 [(41, 3); (42, 1)]] (mk_hop_view 4 4 [(41, 3); (42, 1)]) with
+  | Ok (BTable [(r1, 1); (r2, 7)]) => r1 = [FLit L_HIDDEN] /\ nlines r2 = 7
+  | _ => False
+  end.
+Proof. vm_compute. split; reflexivity. Qed.
+
+(* hidden hops answering from other addresses: the same table *)
+Example c18_ex_same_visible :
+  Forall2 (same_visible (Some 3)) [mk_hop_view 2 4 [(21, 4)]; mk_hop_view 4 4 [(41, 3); (42, 1)]]
+                                  [mk_hop_view 2 4 [(22, 1); (23, 3)]; mk_hop_view 4 4 [(41, 3); (42, 1)]].
+Proof. exact ex_same_visible. Qed.
